@@ -1,7 +1,7 @@
 """Comparators for C12 (blinding values)."""
 
 ORACLE_NAMES = {"fresh_randomness", "draw_in_range", "blinder_in_range", "no_secret_on_wire", "proofs_unlinkable",
-                "prover_refuses_hidden_reveal", "top_bit_reached"}
+                "prover_refuses_hidden_reveal", "top_bit_reached", "low_bits_vary"}
 
 
 def cmp_draws(prop, case, model, mat, F, variant, final):
